@@ -109,7 +109,7 @@ theorem accRelevantFor_false {get : Bool} {sw : Bool × Bool} {st : NSt} {t : NT
 /-- the per-type output of `new` under today's leaks does not see the carried state unless it is relevant -/
 theorem newStep_irrelevant (fl : NFlags) (files : Disk) (st : NSt) (t : NType)
     (h1 : hasNewRelevant st t = false) (h2 : accRelevant fl st t = false) :
-    (newStep codeToday fl files st t).2 = (newStep codeToday fl files {} t).2 := by
+    (newStep codeBeforeFix fl files st t).2 = (newStep codeBeforeFix fl files {} t).2 := by
   have hp : (Ctor.gen t.tree st.hasNew).params = (Ctor.gen t.tree false).params := by
     apply gen_params_irrelevant
     simp only [hasNewRelevant, Bool.and_eq_false_iff, Bool.not_eq_false', List.isEmpty_eq_false_iff,
@@ -120,7 +120,7 @@ theorem newStep_irrelevant (fl : NFlags) (files : Disk) (st : NSt) (t : NType)
     · right; right; simpa using h
   cases hj : fl.json with
   | false =>
-    simp only [newStep, newCore, codeToday, Bool.true_and, ↓reduceIte, hp, hj, Bool.false_and, Bool.false_eq_true,
+    simp only [newStep, newCore, codeBeforeFix, Bool.true_and, ↓reduceIte, hp, hj, Bool.false_and, Bool.false_eq_true,
       List.nil_append]
   | true =>
     simp only [accRelevant, hj, Bool.true_and, Bool.or_eq_false_iff] at h2
@@ -128,7 +128,7 @@ theorem newStep_irrelevant (fl : NFlags) (files : Disk) (st : NSt) (t : NType)
       (embedAccs (switchOf fl t) files (embedsOf t)) _ (accRelevantFor_false h2.1)
     have hs := jpick_irrelevant false (switchOf fl t) t st.accs
       (embedAccs (switchOf fl t) files (embedsOf t)) _ (accRelevantFor_false h2.2)
-    simp only [newStep, newCore, codeToday, Bool.true_and, ↓reduceIte, hp, hg, hs, List.nil_append]
+    simp only [newStep, newCore, codeBeforeFix, Bool.true_and, ↓reduceIte, hp, hg, hs, List.nil_append]
 
 /-! ### `new`: generated files are read only through the look-ups of the embedded types (C07) -/
 
@@ -225,7 +225,7 @@ theorem mapStep_noLeaks (files : Disk) (st : MSt) (t : MType) :
 
 theorem mapStep_irrelevant (files : Disk) (st : MSt) (t : MType)
     (h1 : mapCtorRelevant st t = false) (h2 : mapAccRelevant st t = false) :
-    (mapStep codeToday files st t).2 = (mapStep codeToday files {} t).2 := by
+    (mapStep codeBeforeFix files st t).2 = (mapStep codeBeforeFix files {} t).2 := by
   simp only [mapStep, mapCtorRelevant, mapAccRelevant] at *
   cases hd : t.dest with
   | none => simp
@@ -371,11 +371,11 @@ def newRunOK (fl : NFlags) (disk : Disk) : LoopSt NSt NType NOut → List NType 
   | ls, [t] => !hasNewRelevant ls.st t && !accRelevant fl ls.st t
   | ls, t :: t' :: ts =>
     (!hasNewRelevant ls.st t && !accRelevant fl ls.st t)
-      && newRunOK fl disk (iter (newMachine codeToday fl) disk ls t false) (t' :: ts)
+      && newRunOK fl disk (iter (newMachine codeBeforeFix fl) disk ls t false) (t' :: ts)
 
 theorem newRunOK_sound (fl : NFlags) (disk : Disk) :
     ∀ (ts : List NType) (ls : LoopSt NSt NType NOut), newRunOK fl disk ls ts = true →
-      RunIndep (newMachine codeToday fl) disk ls ts := by
+      RunIndep (newMachine codeBeforeFix fl) disk ls ts := by
   intro ts
   induction ts with
   | nil => intro ls _; trivial
@@ -394,11 +394,11 @@ def mapRunOK (disk : Disk) : LoopSt MSt MType MOut → List MType → Bool
   | ls, [t] => !mapCtorRelevant ls.st t && !mapAccRelevant ls.st t
   | ls, t :: t' :: ts =>
     (!mapCtorRelevant ls.st t && !mapAccRelevant ls.st t)
-      && mapRunOK disk (iter (mapMachine codeToday) disk ls t false) (t' :: ts)
+      && mapRunOK disk (iter (mapMachine codeBeforeFix) disk ls t false) (t' :: ts)
 
 theorem mapRunOK_sound (disk : Disk) :
     ∀ (ts : List MType) (ls : LoopSt MSt MType MOut), mapRunOK disk ls ts = true →
-      RunIndep (mapMachine codeToday) disk ls ts := by
+      RunIndep (mapMachine codeBeforeFix) disk ls ts := by
   intro ts
   induction ts with
   | nil => intro ls _; trivial
